@@ -390,6 +390,7 @@ type pairCfg struct {
 	PrioA      []uint32 `json:"prio_a,omitempty"`
 	PrioB      []uint32 `json:"prio_b,omitempty"`
 	Monitor    bool     `json:"monitor,omitempty"` // evaluate the C03 selection ledger after every event
+	Waits      int      `json:"waits,omitempty"`    // >0: the agents keep the default acceptance waits (srflx 500 ms, prflx 1 s, relay 2 s) and "the clock advances by 600 ms" is an event (at most this often)
 	ReadBuf    int      `json:"read_buf,omitempty"` // (data model) size of the application's read buffer; 0 = larger than any datagram
 }
 
@@ -424,6 +425,7 @@ type pairWorld struct {
 	side     [2]*sideState
 	drops    int
 	dups     int
+	waits    int // "wait" events applied (clock advanced by 600 ms each)
 	devs     int
 	problems []vtProblem
 	contacts map[*Agent]func()
@@ -457,7 +459,9 @@ func (pw *pairWorld) newAgent(s *sideState, lite bool) {
 		WithCandidateTypes([]CandidateType{CandidateTypeHost}),
 		WithLocalCredentials(s.ufrag, s.pwd),
 		WithLoggerFactory(nopFactory{}),
-		WithHostAcceptanceMinWait(0), WithSrflxAcceptanceMinWait(0), WithPrflxAcceptanceMinWait(0), WithRelayAcceptanceMinWait(0),
+	}
+	if pw.cfg.Waits == 0 {
+		opts = append(opts, WithHostAcceptanceMinWait(0), WithSrflxAcceptanceMinWait(0), WithPrflxAcceptanceMinWait(0), WithRelayAcceptanceMinWait(0))
 	}
 	if lite {
 		opts = append(opts, WithICELite(true))
